@@ -313,6 +313,18 @@ package resolver
 //@   assert at call middleware/resolver.writeTombstones#1: arg1 == tombstones
 //@   assert at call middleware/resolver.verifyFetchedKeysWithWork#1: arg0 == candidate && arg1 == resp.Answer
 //@   assert at store resolver.TrustAnchor.State#5: value == StateRevoked && lastret("middleware/resolver.sameKeyExceptRevoke") && revocationSelfSigned[tag]
+//@   # tombstone precedence is enforced on EVERY refresh, whichever way the working set was obtained: a tracked,
+//@   # non-marker key whose material is tombstoned is dropped also when the state came from the state file
+//@   assert at mapdelete#1: ta.State != StateRevoked && ta.State != StateRemoved
+//@   possible at mapdelete#1: lastret("middleware/resolver.readFromTAFile", 1) == nil
+//@   # the add hold-down ABORTS when a fully authenticated RRset omits a pending key: the pending entry is deleted
+//@   # (RFC 5011 4: AddPend + KeyRem -> Start); a later reappearance starts a fresh 30-day hold-down
+//@   assert at mapdelete#2: !revocationOnly && (ta.State == StateAddPend || ta.State == StateStart)
+//@   possible at mapdelete#2: ta.State == StateAddPend
+//@   # an authenticated revocation is honoured whatever else the fetched key's tag collides with: the revocation branch
+//@   # stays reachable when some OTHER tracked key already sits under the revoked key's tag (RFC 5011 2.1: revocation is
+//@   # immediate; a tag collision must not mask it)
+//@   possible at store resolver.TrustAnchor.State#5: existing != nil
 //@   assert at store resolver.TrustAnchor.State#6: value == StateAddPend && !revocationOnly && existing == nil
 //@   assert at store resolver.TrustAnchor.State#7: value == StateMissing && !revocationOnly && ta.State == StateValid
 //@   assert at store resolver.TrustAnchor.State#8: value == StateValid && !revocationOnly && ta.State == StateAddPend && lastret("time.Since") > 2592000000000000
@@ -490,3 +502,12 @@ package resolver
 //@   nosafety all pre
 //@   assert at return#1: calls("(*middleware/resolver.Resolver).queryServer$2") >= 1
 //@   assert at return#2: calls("(*middleware/resolver.Resolver).queryServer$2") >= 1
+//@
+//@ # ---- C13 / C07: the fan-out over a zone's servers is abandoned before every server was tried in ONE case only - a
+//@ # server answered NXDOMAIN and either this is a root/TLD-level lookup or more than two error responses are already
+//@ # in hand. Error responses of any other kind (SERVFAIL, REFUSED, ...) never end the fan-out early, so a zone-wide
+//@ # failure is concluded only after every server of the zone failed to give a usable response.
+//@ func (*Resolver).lookup
+//@   abstract
+//@   nosafety all pre
+//@   assert at call middleware/resolver.pickFallbackResponse#1: exhausted(1) || (resp.Rcode == dns.RcodeNameError && (len(responseErrors) > 2 || level < 2))
